@@ -20,7 +20,6 @@ import (
 	"net"
 	"net/http"
 	"net/http/httptest"
-	"regexp"
 	"sort"
 	"strconv"
 	"strings"
@@ -214,7 +213,7 @@ func (in *instance) ServeHTTP(w http.ResponseWriter, r *http.Request) {
 	for k, v := range r.Header {
 		switch {
 		case strings.HasPrefix(k, "X-N-"):
-			hdrs = append(hdrs, "N."+strings.ToLower(k[4:])+"="+esc(v[0]))
+			hdrs = append(hdrs, "N."+strings.ToLower(k[4:])+"="+escv(v[0]))
 			if strings.HasPrefix(v[0], "u") {
 				if d, err := strconv.Atoi(v[0][1:]); err == nil {
 					in.draws = append(in.draws, d)
@@ -236,7 +235,7 @@ func (in *instance) ServeHTTP(w http.ResponseWriter, r *http.Request) {
 					val = "bad." + val
 				}
 			}
-			hdrs = append(hdrs, "V."+vr+"="+esc(val))
+			hdrs = append(hdrs, "V."+vr+"="+escv(val))
 		}
 	}
 	sort.Strings(hdrs)
@@ -246,9 +245,9 @@ func (in *instance) ServeHTTP(w http.ResponseWriter, r *http.Request) {
 	}
 	bs := "-"
 	if len(body) > 0 {
-		bs = esc(string(body))
+		bs = escv(string(body))
 	}
-	in.events = append(in.events, "R~"+r.Method+"~"+esc(r.URL.Path)+"~"+h+"~"+bs)
+	in.events = append(in.events, "R~"+r.Method+"~"+escv(r.URL.Path)+"~"+h+"~"+bs)
 	in.rtimes = append(in.rtimes, now)
 	k := in.ord
 	in.ord++
@@ -296,7 +295,6 @@ func (in *instance) ServeHTTP(w http.ResponseWriter, r *http.Request) {
 	}
 }
 
-var drawnTok = regexp.MustCompile(`\bu[0-9]+\b`)
 
 func runGun(kv map[string]string) (obs string) {
 	setup()
@@ -406,20 +404,6 @@ func runGun(kv map[string]string) (obs string) {
 					}
 					if okSteps == len(a.Requests) && t1.Sub(t0) < a.MinWaitingTime {
 						in.events = append(in.events, "V~mwt")
-					}
-					if nInst > 1 {
-						// [next] draws race between instances: rename drawn tokens per shot by first appearance
-						names := map[string]string{}
-						for e := start; e < len(in.events); e++ {
-							in.events[e] = drawnTok.ReplaceAllStringFunc(in.events[e], func(t string) string {
-								if n, ok := names[t]; ok {
-									return n
-								}
-								n := "@" + strconv.Itoa(len(names))
-								names[t] = n
-								return n
-							})
-						}
 					}
 					in.mu.Unlock()
 				}
